@@ -10,6 +10,9 @@
 (* select_batch {which, api, at, ok, r}  one call for all k of at                     *)
 (* get {api, all, at, r}  counts {len, ones, zeros}  popcounts {api, r}                        *)
 (* wrank {api, w, r}  wselect {which, api, w, r}   questions on one 64-bit word       *)
+(* cnt {what, api, r}  wrange {api, w, s, l, r}  wedge {api, w, tz, lz}              *)
+(* mut {m, api, ..., len, ones}  one BitVector mutator (history machine), len and     *)
+(*                               count_ones observed after the call                   *)
 (* build {ok}   panic {in, msg}  (no action: a panic is rejected)                     *)
 EXTENDS RankSelect, TraceIO, Known_RankSelect
 
@@ -19,6 +22,22 @@ vars == <<vec, l, subj, kf>>
 
 Pow2 == <<1, 2, 4, 8, 16, 32, 64, 128, 256, 512, 1024, 2048, 4096, 8192, 16384, 32768>>
 Expand(w16, n) == [i \in 1..n |-> (w16[((i - 1) \div 16) + 1] \div Pow2[((i - 1) % 16) + 1]) % 2]
+
+(* one BitVector mutator call (or a batch of equal calls) of the history machine *)
+Mut(e) ==
+    \/ e.m = "new"         /\ BvNew(<<>>)
+    \/ e.m = "with_size"   /\ BvNew(Rep(e.x, e.n))
+    \/ e.m = "from_raw"    /\ BvNew(Expand(e.w16, e.n))
+    \/ e.m = "push"        /\ BvPush(Expand(e.w16, e.k))
+    \/ e.m = "pop"         /\ BvPop(e.k, e.r)
+    \/ e.m = "set"         /\ BvSet(e.i, e.x, e.ok)
+    \/ e.m = "insert"      /\ BvInsert(e.i, e.x, e.ok)
+    \/ e.m = "ensure_set1" /\ BvEnsureSet1(e.i, e.ok)
+    \/ e.m = "resize"      /\ BvResize(e.n, e.x, e.ok)
+    \/ e.m = "clear"       /\ BvClear
+    \/ e.m = "set_range"   /\ BvSetRange(e.s, e.e, e.x, e.ok)
+    \/ e.m = "bitwise"     /\ BvBitwise(e.f, Expand(e.ow16, e.olen), e.s, e.e, e.ok)
+    \/ e.m = "noop"        /\ BvNoop
 
 TraceInit == vec = Mk(<<>>) /\ l = 1 /\ subj = [subject |-> "none"] /\ kf = {}
 
@@ -35,6 +54,10 @@ Step(e) ==
     \/ e.op = "wrank"  /\ WordRank(e.w, e.r)
     \/ e.op = "wselect" /\ WordSelect(e.which, e.w, e.r)
     \/ e.op = "popcounts" /\ Popcounts(e.r)
+    \/ e.op = "cnt"    /\ CountTwin(e.what, e.r)
+    \/ e.op = "wrange" /\ WordRanges(e.w, e.s, e.l, e.r)
+    \/ e.op = "wedge"  /\ WordEdges(e.w, e.tz, e.lz)
+    \/ e.op = "mut"    /\ Mut(e) /\ Observed(e.len, e.ones)
     \/ e.op = "build"  /\ ~e.ok /\ BuildRefused
     \/ e.op = "build"  /\ e.ok  /\ Built
 
